@@ -620,6 +620,7 @@ func main() {
 	inits := flag.String("inits", "", "comma separated package path patterns whose init functions the executor runs")
 	debugPkgs := flag.String("debug", "", "comma separated package paths built with ssa.GlobalDebug")
 	modfile := flag.String("modfile", "", "alternative go.mod (go build -modfile) for the harness module")
+	pkgPats := flag.String("pkgs", "./...", "comma separated package patterns to load (relative to -dir)")
 	flag.Parse()
 
 	cfg := &packages.Config{
@@ -649,7 +650,7 @@ func main() {
 			cfg.Overlay[virt] = b
 		}
 	}
-	initial, err := packages.Load(cfg, "./...")
+	initial, err := packages.Load(cfg, strings.Split(*pkgPats, ",")...)
 	if err != nil {
 		fatal(err)
 	}
